@@ -17,6 +17,9 @@ INT_VALS = [0, 1, 12, 400]
 MONTH_VALS = [0, 1, 12, 59]
 TIME_VALS = [0, 1, 12, 59, 0.5, 0.1, 100000]
 SEC_VALS = [0, 1, 12, 59, 0.25, 0.1, 123456.789]
+# every two-decimal value below 100 and small magnitudes, one unit at a time (unit "decimals")
+TWO_DEC = [i / 100.0 for i in range(1, 10000)]
+SMALL = [0.001, 0.0001, 0.00005, 0.000001, 1e-07, 0.999999, 59.999999]
 TIME_VALS_T = TIME_VALS + [0.25, 1.5, 23, 24]
 SEC_VALS_T = SEC_VALS + [0.5, 59.999999, 60, 3600]
 
@@ -34,6 +37,8 @@ def units(tier):
             for mo in MONTH_VALS:
                 us.append(("objs", sign, y, mo))
     us.append(("weeks",))
+    for unit_name in ("hours", "minutes", "seconds"):
+        us.append(("decimals", unit_name))
     for k in range(1, 64, 4):
         us.append(("designators", k, min(k + 4, 64)))
     for i in range(4):
@@ -166,6 +171,16 @@ def run_unit(unit, ctx):
                         ctx.state_count += 1
                         ctx.sample(kw)
                         check_obj(ctx, parser, kw)
+    elif u == "decimals":
+        for v in TWO_DEC + SMALL:
+            for sign in (1, -1):
+                ctx.state_count += 1
+                check_obj(ctx, parser, {unit[1]: sign * v})
+                if unit[1] != "seconds":
+                    check_obj(ctx, parser, {"days": sign * 1, unit[1]: sign * v})
+        letter = {"hours": "H", "minutes": "M", "seconds": "S"}[unit[1]]
+        for v in TWO_DEC[::7] + [1.14, 2.47, 4.56]:
+            check_designator_string(ctx, parser, [(letter, unit[1], v)], ",", False)
     elif u == "weeks":
         for w in range(-1000, 1001):
             ctx.state_count += 1
